@@ -9,10 +9,13 @@ from facts import Facts
 import r9
 F = Facts(extract.extract()[0])
 props = {json.loads(l)["id"]: json.loads(l) for l in open(os.path.join(V, "properties.jsonl"))}
-for pid in (sys.argv[1:] or sorted(props)):
-    if not os.path.exists(os.path.join(V, "rules", pid + ".py")):
+claimed = [p for p in sorted(props) if os.path.exists(os.path.join(V, "rules", p + ".py"))]
+named_by = {p: r9.scope(F, props[p], want_named=True)[1] for p in claimed}
+for pid in (sys.argv[1:] or claimed):
+    if pid not in claimed:
         continue
-    b = r9.generate(F, props[pid])
+    elsewhere = set().union(*[named_by[q] for q in claimed if q != pid])
+    b = r9.generate(F, props[pid], elsewhere)
     json.dump(b, open(r9.baseline_path(pid), "w"), indent=1, sort_keys=True)
     print(pid, len(b), "functions", sum(len(x["must"]) for x in b.values()), "must", sum(len(x["order"]) for x in b.values()), "order",
           sum(len(v) for x in b.values() for v in x["args"].values()), "sink calls")
